@@ -101,6 +101,18 @@ func c02Shapes() []Shape {
 		Fn("globalFirst", []ParamDecl{Pm("p", TInt)}, []Type{TInt}, Def("x", N(7)), SetN([]string{"last", "x"}, Call("named", V("p"))), SetN([]string{"total", "p"}, Call("pair", V("x"))), Ret(Op("+", V("x"), V("p")))),
 		Pr(Call("localFirst", L(1)), V("total"), V("last")), Pr(Call("globalFirst", N(5)), V("total"), V("last")),
 		Def("x", N(100)), Def("p", N(200)), Pr(Call("globalFirst", N(6)), V("x"), V("p"), V("total"), V("last"))))
+	add("short-definition-reads-redefined-variable", Prog(Def("a", L(0)), Def("b", L(1)), DefN([]string{"b", "c"}, V("a"), V("b")), Pr(V("b"), V("c")),
+		DefN([]string{"d", "a"}, Op("+", V("a"), V("c")), Op("*", V("a"), N(2))), Pr(V("a"), V("d")),
+		Fn("f", []ParamDecl{Pm("p", TInt), Pm("q", TInt)}, []Type{TInt}, DefN([]string{"q", "r"}, V("p"), V("q")), Ret(Op("-", Op("*", V("q"), N(10)), V("r")))), Pr(Call("f", L(2), N(3)))))
+	add("eleven-parameters", Prog(
+		Fn("wide", []ParamDecl{Pm("a", TInt), Pm("b", TInt), Pm("c", TInt), Pm("d", TInt), Pm("e", TInt), Pm("f", TInt), Pm("g", TInt), Pm("h", TInt), Pm("i", TInt), Pm("j", TString), Pm("k", TInt)}, []Type{TInt},
+			Pr(V("a"), V("i"), V("j"), V("k")), Ret(Op("+", Op("+", V("a"), V("i")), V("k")))),
+		Pr(Call("wide", L(0), N(2), N(3), N(4), N(5), N(6), N(7), N(8), L(1), S("ten"), L(2)))))
+	add("short-definition-in-function-with-global-of-same-name", Prog(Def("total", L(0)), Def("count", N(5)),
+		Fn("pair", nil, []Type{TInt, TInt}, Ret(N(1), N(2))),
+		Fn("f", nil, []Type{TInt}, DefN([]string{"total", "extra"}, Call("pair")), Set("total", Op("+", V("total"), N(10))), Ret(Op("+", V("total"), V("extra")))),
+		Fn("g", nil, []Type{TInt}, DefN([]string{"count", "step"}, N(3), N(4)), IfS(T(), DefN([]string{"total", "inner"}, V("count"), V("step")), Set("total", N(77)), Pr(V("total"), V("inner"))), Ret(Op("+", V("count"), V("step")))),
+		Pr(Call("f"), Call("g"), V("total"), V("count")), Pr(Call("f"), V("total"), V("count"))))
 	add("early-return", Prog(
 		Fn("f", []ParamDecl{Pm("a", TInt)}, []Type{TString}, IfS(Op("<", V("a"), L(1)), Ret(S("small"))), For3(Def("i", N(0)), Op("<", V("i"), N(3)), Inc("i"), IfS(Op("==", V("i"), V("a")), Ret(S("loop")))), Ret(S("big"))),
 		Pr(Call("f", L(0)))))
@@ -176,16 +188,29 @@ func c04Shapes() []Shape {
 		Do(P(Op("*", ti(8, N(2)), ti(9, N(3))))), Do(Len(ts(10, S("abc")))), Do(ItoaE{X: ti(11, N(4))}), Do(Op("+", ts(12, S("a")), ts(13, S("b")))),
 		IfS(tb(14, T()), Do(Op("-", ti(15, N(1)), ti(16, N(1))))),
 		Fn("inner", nil, nil, Do(Op("<", ti(17, N(1)), ti(18, N(2)))), Do(ti(19, N(0)))), Do(Call("inner")), Pr(S("end")))
+	add("identical-calls-in-one-statement", Pr(Op("+", ti(1, L(0)), ti(1, L(0)))), Pr(ti(2, N(5)), ti(2, N(5))), Def("b", Op("||", tb(3, F()), tb(3, F()))), Pr(V("b")),
+		IfChain([]Expr{tb(4, Op("<", L(0), L(1))), tb(4, Op("<", L(0), L(1)))}, []Blk{{Pr(S("first"))}, {Pr(S("second"))}}, nil),
+		Def("s", Ints(ti(5, N(1)), ti(5, N(1)))), Pr(Len(V("s"))), Do(Call("sum3", ti(6, N(1)), ti(6, N(1)), ti(6, N(1)))))
+	add("loop-condition-with-and", Def("i", N(0)), ForC(Op("&&", tb(1, Op("<", V("i"), L(0))), tb(2, Op("<", V("i"), N(3)))), Inc("i"), Pr(S("body"), V("i"))), Pr(S("end")),
+		For3(Def("j", N(0)), Op("&&", Op("<", V("j"), N(2)), tb(3, T())), Inc("j"), Pr(S("b2"), V("j"))), Pr(S("end2")),
+		For3(Def("k", N(0)), Op("||", tb(4, Op("<", V("k"), N(1))), tb(5, F())), Inc("k"), Pr(S("b3"), V("k"))))
 	add("panic-argument", IfS(tb(1, Op("<", L(0), L(1))), PanicS{X: ts(2, S("bye"))}), Pr(ti(3, N(0))))
 	add("condition-in-function", Fn("chk", []ParamDecl{Pm("a", TInt)}, []Type{TBool}, IfS(tb(1, Op("<", V("a"), L(0))), Ret(tb(2, T()))), Ret(tb(3, F()))), Pr(Call("chk", L(1))))
 	return sh
 }
 
-func c03Shapes() []Shape {
+// c03Shapes: deep=false gives the quick bounds (indices 0..12, strings of 4 bytes), deep=true the thorough ones
+// (indices up to the property's 40, strings of 6 bytes).
+func c03Shapes(deepOpt ...bool) []Shape {
+	deep := len(deepOpt) > 0 && deepOpt[0]
+	maxIdx, twoLo, strLen := int64(12), int64(8), 4
+	if deep {
+		maxIdx, twoLo, strLen = 40, 8, 6
+	}
 	var sh []Shape
 	add := func(name string, p *Program) { sh = append(sh, constShape(name, p)) }
 	add("literal-index-len", Prog(Def("s", Ints(L(0), L(1), L(2))), Pr(Idx("s", N(0)), Idx("s", N(2)), Len(V("s"))), Def("e", Ints()), Pr(Len(V("e")))))
-	sh = append(sh, Shape{Name: "grow-symbolic-index", AssumeLits: smallLits(0, 12, 0), Prog: func(c *gosym.Ctx) *Program {
+	sh = append(sh, Shape{Name: "grow-symbolic-index", AssumeLits: smallLits(0, maxIdx, 0), Prog: func(c *gosym.Ctx) *Program {
 		return Prog(Def("s", Ints(N(5))), SSet("s", L(0), L(1)), Pr(Len(V("s")), Idx("s", N(0)), Idx("s", L(0))),
 			IfS(Op(">", L(0), N(1)), Pr(Idx("s", Op("-", L(0), N(1))))))
 	}})
@@ -218,6 +243,20 @@ func c03Shapes() []Shape {
 		ForRange{I: "i", V: "s", X: Strs(S("ab"), S("cde")), Body: []Stmt{ForRange{I: "j", V: "n", X: Call("nums"), Body: []Stmt{Pr(V("i"), V("s"), V("j"), V("n"))}}, Pr(S("outer"), V("i"))}},
 		ForRange{I: "i", V: "ch", X: Call("word"), Body: []Stmt{ForRange{I: "j", V: "v", X: Ints(L(0), L(1)), Body: []Stmt{Pr(V("i"), V("ch"), V("j"), V("v"))}}, Pr(S("inner done"), V("ch"))}},
 		ForRange{I: "a", V: "x", X: Call("nums"), Body: []Stmt{Pr(V("a"), V("x"))}}, ForRange{I: "a", V: "x", X: Ints(N(7)), Body: []Stmt{Pr(V("a"), V("x"))}}))
+	add("two-slice-literals-in-one-statement", Prog(
+		Fn("first", []ParamDecl{Pm("p", TInts), Pm("q", TInts)}, []Type{TInt}, Ret(Op("+", Op("*", Len(V("p")), N(10)), Len(V("q"))))),
+		Fn("two", nil, []Type{TInts, TInts}, Ret(Ints(N(1), N(2), N(3)), Ints(L(0)))),
+		Fn("mk", nil, []Type{TInts}, Ret(Ints(N(8), N(9)))),
+		Pr(Call("first", Ints(N(1), N(2), N(3)), Ints(L(0)))), Def("a", Ints()), Def("b", Ints()),
+		SetN([]string{"a", "b"}, Ints(N(1), N(2)), Ints(L(1))), Pr(Len(V("a")), Len(V("b")), Idx("a", N(0)), Idx("b", N(0))),
+		DefN([]string{"c", "d"}, Call("two")), Pr(Len(V("c")), Len(V("d")), Idx("c", N(2)), Idx("d", N(0))),
+		Pr(Call("first", Ints(N(4)), Call("mk"))), SSet("a", N(0), N(50)), Pr(Idx("a", N(0)), Idx("b", N(0)))))
+	add("substring-end-expressions", Prog(Def("s", S("abcdef")), Def("n", N(5)), Def("i", N(4)),
+		Pr(Substr{S: V("s"), Lo: N(1), Hi: Op("-", Len(V("s")), N(1))}), Pr(Substr{S: V("s"), Hi: Op("-", V("n"), N(2))}), Pr(Substr{S: V("s"), Lo: N(0), Hi: Op("-", V("i"), N(1))}),
+		Pr(Substr{S: V("s"), Lo: Op("-", V("n"), N(3)), Hi: Op("+", V("i"), N(1))}), Pr(Substr{S: V("s"), Lo: Op("-", V("i"), N(2)), Hi: Op("-", V("n"), V("i"))}),
+		Pr(StrIdx{S: V("s"), I: Op("-", V("n"), N(1))}), Pr(Substr{S: V("s"), Lo: N(1), Hi: P(Op("-", V("n"), N(1)))})))
+	add("grow-then-assign-low-index", Prog(Def("s", Ints()), For3(Def("i", N(0)), Op("<", V("i"), N(12)), Inc("i"), SSet("s", V("i"), Op("*", V("i"), N(10)))),
+		SSet("s", N(3), L(0)), Pr(Len(V("s")), Idx("s", N(3)), Idx("s", N(11))), Def("t", Ints(N(1), N(2), N(3), N(4), N(5), N(6), N(7), N(8), N(9))), SSet("t", N(10), N(7)), Pr(Len(V("t")), Idx("t", N(9)), Idx("t", N(10)))))
 	add("copy-empty", Prog(Def("src", Ints()), Def("dst", Ints()), Pr(CopyE{Dst: "dst", Src: V("src")}, Len(V("dst")))))
 	add("copy-strings", Prog(Def("src", Strs(S("a b"), S(""))), Def("dst", Strs()), Pr(CopyE{Dst: "dst", Src: V("src")}), Pr(Idx("dst", N(0)), Len(V("dst")))))
 	sh = append(sh, Shape{Name: "string-ops-symbolic", Prog: func(c *gosym.Ctx) *Program {
@@ -229,16 +268,16 @@ func c03Shapes() []Shape {
 		}
 		return Prog(body...)
 	}})
-	sh = append(sh, Shape{Name: "substring-symbolic-bounds", AssumeLits: smallLits(0, 4, 0, 1), Prog: func(c *gosym.Ctx) *Program {
-		s := SymStr(c, "s", 4, neutral)
+	sh = append(sh, Shape{Name: "substring-symbolic-bounds", AssumeLits: smallLits(0, int64(strLen), 0, 1), Prog: func(c *gosym.Ctx) *Program {
+		s := SymStr(c, "s", strLen, neutral)
 		return Prog(Def("s", SR(s)), Pr(S("["), Substr{S: V("s"), Lo: L(0), Hi: L(1)}, S("]")), Pr(S("["), Substr{S: V("s"), Hi: L(1)}, S("]")), Pr(S("["), Substr{S: V("s"), Lo: L(0)}, S("]")))
 	}})
-	sh = append(sh, Shape{Name: "string-index-symbolic", AssumeLits: smallLits(0, 3, 0), Prog: func(c *gosym.Ctx) *Program {
-		s := SymStr(c, "s", 4, neutral)
+	sh = append(sh, Shape{Name: "string-index-symbolic", AssumeLits: smallLits(0, int64(strLen-1), 0), Prog: func(c *gosym.Ctx) *Program {
+		s := SymStr(c, "s", strLen, neutral)
 		return Prog(Def("s", SR(s)), Pr(StrIdx{S: V("s"), I: L(0)}), Pr(Op("==", StrIdx{S: V("s"), I: L(0)}, S("a"))))
 	}})
 	add("string-compare-concat", Prog(Def("a", S("ab")), Def("b", Op("+", S("a"), S("b"))), Pr(Op("==", V("a"), V("b")), Op("!=", V("a"), Op("+", V("b"), S("")))), Def("ab", Op("+", V("a"), V("b"))), Pr(Substr{S: V("ab"), Lo: N(1), Hi: N(3)})))
-	sh = append(sh, Shape{Name: "two-digit-indices", AssumeLits: smallLits(8, 12, 0), Prog: func(c *gosym.Ctx) *Program {
+	sh = append(sh, Shape{Name: "two-digit-indices", AssumeLits: smallLits(twoLo, maxIdx, 0), Prog: func(c *gosym.Ctx) *Program {
 		return Prog(Def("s", Ints()), For3(Def("i", N(0)), Op("<", V("i"), L(0)), Inc("i"), SSet("s", V("i"), Op("*", V("i"), N(2)))), Pr(Len(V("s")), Idx("s", Op("-", L(0), N(1))), Idx("s", N(9))))
 	}})
 	add("slice-of-slices-of-values-in-loop", Prog(Def("acc", Ints()), For3(Def("i", N(0)), Op("<", V("i"), N(3)), Inc("i"), Def("t", Ints(V("i"))), SSet("acc", V("i"), Idx("t", N(0)))), Pr(Idx("acc", N(0)), Idx("acc", N(1)), Idx("acc", N(2)))))
@@ -282,11 +321,25 @@ func CheckC02(r *Run) int {
 }
 
 func CheckC03(r *Run) int {
-	return checkShapes(r, c03Shapes(), eqOpts{Target: "bash", CheckHazards: true}, 6000, "bounds: symbolic indices assumed in 0..12, string lengths 0..4 by case split, substring bounds 0..4; excluded: out-of-range reads, negative indices, copy into a longer destination")
+	deep := r.Tier != "quick"
+	shapes := c03Shapes(deep)
+	bounds := "bounds: symbolic indices assumed in 0..12, symbolic strings of 4 bytes, substring bounds 0..4"
+	if deep {
+		shapes = append(shapes, generatedShapes("slices", r.Seed+3, 400, true, true)...)
+		bounds = "bounds: symbolic indices assumed in 0..40, symbolic strings of 6 bytes, substring bounds 0..6; plus 400 generated programs with []int variables, growth and len"
+	}
+	return checkShapes(r, shapes, eqOpts{Target: "bash", CheckHazards: true}, 20000, bounds+"; excluded: out-of-range reads, negative indices, copy into a longer destination")
 }
 
 func CheckC04(r *Run) int {
-	return checkShapes(r, c04Shapes(), eqOpts{Target: "bash", CheckHazards: true}, 3000, "tracer functions print their position; the printed sequence is compared with the reference's left-to-right, exactly-once, eager order")
+	shapes := c04Shapes()
+	note := "tracer functions print their position; the printed sequence is compared with the reference's left-to-right, exactly-once, eager order"
+	if r.Tier != "quick" {
+		// generated programs whose functions print and write globals: any change of evaluation order or count is observable
+		shapes = append(shapes, generatedShapes("effects", r.Seed+5, 400, true, false)...)
+		note += "; thorough: plus 400 generated programs whose functions have effects (output, global updates)"
+	}
+	return checkShapes(r, shapes, eqOpts{Target: "bash", CheckHazards: true}, 3000, note)
 }
 
 // CheckC05: the Batch target under cmd.exe's documented rules (BatSem), 32-bit integers.
